@@ -35,7 +35,14 @@ fn program_of(c: &WCase) -> (Program, usize) {
     o.level = c.level;
     o.password = Some(c.password.clone());
     o.large = c.large;
-    ops.push(Op::File { name: entry_name(c), opts: o, chunks: vec![c.content.clone()] });
+    // how the encrypted entry is started: start_file, start_file_aligned, or start_file_with_extra_data
+    // (shared or split extra data) - the password option goes with each of them
+    match (c.before / 3) % 4 {
+        1 => ops.push(Op::Aligned { name: entry_name(c), opts: o, align: [4u16, 64, 4096][(c.after as usize / 3) % 3], chunks: vec![c.content.clone()] }),
+        2 => ops.push(Op::ExtraFile { name: entry_name(c), opts: o, local: vec![crate::refzip::Extra { id: 0xcafe, data: vec![1, 2, 3] }], central: None, chunks: vec![c.content.clone()] }),
+        3 => ops.push(Op::ExtraFile { name: entry_name(c), opts: o, local: vec![crate::refzip::Extra { id: 0xcafe, data: vec![9; 40] }], central: Some(vec![crate::refzip::Extra { id: 0xbeef, data: vec![7] }]), chunks: vec![c.content.clone()] }),
+        _ => ops.push(Op::File { name: entry_name(c), opts: o, chunks: vec![c.content.clone()] }),
+    }
     for i in 0..c.after % 3 {
         ops.push(Op::File { name: format!("post{i}"), opts: Opts::plain(Method::Stored), chunks: vec![Content::Bytes(b"plain neighbour".to_vec())] });
     }
@@ -122,8 +129,10 @@ fn check_written(c: &WCase, ext: &Mutex<Vec<(Vec<u8>, Option<String>, serde_json
     }
     // the plaintext does not appear in the file
     if plain.len() >= 8 && c.method == Method::Stored {
-        if bytes.windows(plain.len().min(16)).any(|w| w == &plain[..plain.len().min(16)]) {
-            return Err("plaintext bytes appear in the archive".into());
+        // looked for where it would sit if it had not been enciphered: the entry's data region (trivial
+        // plaintexts such as a run of zeros occur in every archive's headers)
+        if raw.windows(plain.len().min(16)).any(|w| w == &plain[..plain.len().min(16)]) {
+            return Err("plaintext bytes appear in the entry's data region".into());
         }
     }
     reader_contract(&bytes, k, &entry_name(c), c.password.as_bytes(), c.wrong.as_bytes(), &plain)?;
